@@ -208,7 +208,17 @@ func mutatedRecvFields(w *core.World, f *core.FuncInfo, depth int, fl *core.Flow
 	visit := func(x ast.Node) bool {
 		switch s := x.(type) {
 		case *ast.AssignStmt:
-			for _, l := range s.Lhs {
+			for i, l := range s.Lhs {
+				if len(s.Rhs) == len(s.Lhs) {
+					// x.f = x.f is not a mutation (nor a reset)
+					if rn, rok := isRecvField(s.Rhs[i]); rok {
+						if ln, lok := isRecvField(l); lok && ln == rn {
+							if _, plain := ast.Unparen(s.Rhs[i]).(*ast.SelectorExpr); plain {
+								continue
+							}
+						}
+					}
+				}
 				if n, ok := isRecvField(l); ok {
 					if _, seen := out[n]; !seen {
 						out[n] = w.Pos(l.Pos())
